@@ -101,7 +101,7 @@ claim(
 claim(
     "C18",
     "other",
-    "Narrow (mechanism 2 of 5, plus the indented syntax's own indentation scanner of mechanism 1). Verus: SassParser's indentation look-ahead (peek/read_indentation, comment and selector-list scanners) "
+    "Narrow (mechanisms 2 and 5 of 5, plus the indented syntax's own indentation scanner of mechanism 1). Syntax selection by file extension on 10 concrete paths (bounded). Verus: SassParser's indentation look-ahead (peek/read_indentation, comment and selector-list scanners) "
     "terminates, keeps its cache invariant and computes the width of the last line scanned (functional postcondition). Kani: TokenLexer::next on all 156 strings of <= 3 characters over {a, LF, CR, FF, e-acute}: never yields a CR or FF token, token kinds equal the text with CRLF/CR/FF replaced by LF, "
     "positions are increasing byte offsets of the original text with pos + len_utf8 <= len. Bounded stand-in. NOT covered: SCSS vs indented vs CSS agreement (a relation between whole parses), "
     "whitespace/comment insertion, BOM/@charset, `_`/`-` normalisation (interner not executable under Kani).",
